@@ -33,6 +33,20 @@ def find_bounded_trait(ctx):
     return c[0]
 
 
+def _consts_in(rv):
+    out = []
+    if isinstance(rv, dict):
+        if rv.get('k') == 'const':
+            out.append(rv)
+        for v in rv.values():
+            if isinstance(v, dict):
+                out += _consts_in(v)
+            elif isinstance(v, list):
+                for x in v:
+                    out += _consts_in(x)
+    return out
+
+
 def strip_ref(s):
     if s.startswith('&mut '):
         return s[5:]
@@ -89,44 +103,78 @@ def run(ctx, rep):
     tyset = set(types)
     new_decl = None
     range_decl = None
+
+    def impl_body_of(ty, method):
+        for q, b in lib.bodies.items():
+            io = b.impl_of or {}
+            if io.get('trait') == trait and io.get('self_ty') == ty and last_seg(q) == method:
+                return q
+        for q in lib.bodies:       # associated consts carry no impl record: match the path
+            if q.startswith(f'<{ty} as {trait}') and q.endswith('>::' + method):
+                return q
+        return None
     for _, t in lib.bodies[try_from_default].calls():
         n = callee_name(t)
         if n.startswith(trait + '::'):
-            if t['args']:
-                new_decl = n
-            else:
-                range_decl = n
-    if not new_decl or not range_decl:
+            q = impl_body_of(types[0], last_seg(n)) if types else None
+            rt = lib.bodies[q].locals[0] if q else {}
+            if t['args'] and rt.get('adt') == types[0]:
+                new_decl = n              # the unchecked constructor: value -> Self
+            elif not t['args'] and rt.get('s', '').startswith('std::ops::RangeInclusive'):
+                range_decl = n            # the range as a method (it may also be a pair of associated consts)
+    if not new_decl:
         raise AnchorLost('bounded-trait methods')
 
-    # ---- R18.6 ranges ---------------------------------------------------
+    # ---- R18.6 ranges: from range() or from the associated consts the guard compares with ----------------
+    def const_body_value(q):
+        eng_ = ctx.engine()
+        tree_ = eng_.call_entry(q, [])
+        lv_ = list(E.leaves_of(tree_))
+        return lv_[0].ret if len(lv_) == 1 else None
+
+    def guard_bound_names():
+        """names of the trait's associated consts read by the guarded constructor"""
+        out = []
+        b_ = lib.bodies[try_from_default]
+        for blk in b_.blocks:
+            for st_ in blk['stmts']:
+                if st_['k'] == 'assign':
+                    for o in _consts_in(st_['rv']):
+                        if o.get('named', '').startswith(trait + '::') and o['named'] not in out:
+                            out.append(o['named'])
+        return out
     ranges = {}
+    bound_names = guard_bound_names() if not range_decl else []
     for ty in types:
-        p = f'<{ty} as {trait}<f64>>::{last_seg(range_decl)}'
-        if p not in lib.bodies:
-            cands = [q for q, b in lib.bodies.items() if b.impl_of and b.impl_of.get('trait') == trait
-                     and b.impl_of.get('self_ty') == ty and last_seg(q) == last_seg(range_decl)]
-            p = cands[0] if cands else None
-        if p is None:
-            rep.ob('R18.6', ty, False, 'range() body not found')
-            continue
-        eng = ctx.engine()
-        tree = eng.call_entry(p, [])
-        leaves = list(E.leaves_of(tree))
-        r = leaves[0].ret if len(leaves) == 1 else None
         lo = hi = None
-        if r is not None and r[0] == 'rangeincl':
-            lo, hi = const_f64(r[1]), const_f64(r[2])
+        where = None
+        if range_decl:
+            p = impl_body_of(ty, last_seg(range_decl))
+            if p is None:
+                rep.ob('R18.6', ty, False, 'range() body not found')
+                continue
+            r = const_body_value(p)
+            where = lib.bodies[p].span
+            if r is not None and r[0] == 'rangeincl':
+                lo, hi = const_f64(r[1]), const_f64(r[2])
+        elif len(bound_names) == 2:
+            vals = []
+            for nm in bound_names:
+                q = impl_body_of(ty, last_seg(nm))
+                v = const_f64(const_body_value(q)) if q else None
+                vals.append(v)
+                where = lib.bodies[q].span if q else where
+            if None not in vals:
+                lo, hi = min(vals), max(vals)
         if lo is None or hi is None:
-            rep.ob('R18.6', ty, None, f'range not a constant closed interval: {show(r)}')
+            rep.ob('R18.6', ty, None, 'range not available as a constant closed interval (range() or two associated consts)')
             continue
         ranges[ty] = (lo, hi)
         doc = DOC_RANGES.get(last_seg(ty))
         if doc is None:
             rep.ob('R18.6', ty, None, f'no documented range known for {ty}; found [{lo},{hi}]')
         else:
-            rep.ob('R18.6', last_seg(ty), (lo, hi) == doc, f'range() = [{lo}, {hi}], documented [{doc[0]}, {doc[1]}]',
-                   where=lib.bodies[p].span)
+            rep.ob('R18.6', last_seg(ty), (lo, hi) == doc, f'range = [{lo}, {hi}], documented [{doc[0]}, {doc[1]}]', where=where)
     rep.sample({'ranges': {last_seg(k): v for k, v in ranges.items()}})
 
     # ---- R18.1 who may construct ---------------------------------------
@@ -211,14 +259,21 @@ def run(ctx, rep):
                 detail = f'guard is not a closed-interval test on the same value: {show(conds)}'
             else:
                 lo, hi, clo, chi = it
-                rng = ('app', range_decl, ())
+                rng = ('app', range_decl, ()) if range_decl else None
                 los = (('range_start', rng), ('app', 'range_start', (rng,)))
                 his = (('range_end', rng), ('app', 'range_end', (rng,)))
-                if lo in los and hi in his and clo and chi:
+
+                def assoc(t_):
+                    return isinstance(t_, tuple) and t_ and t_[0] == 'constx' and str(t_[2]).startswith(trait + '::')
+                if rng is not None and lo in los and hi in his and clo and chi:
                     ok = True
                     detail = 'Ok(new(value)) iff range().contains(&value); Err otherwise'
+                elif rng is None and assoc(lo) and assoc(hi) and lo != hi and clo and chi and \
+                        [str(lo[2]), str(hi[2])] == bound_names:
+                    ok = True
+                    detail = f'Ok(new(value)) iff {last_seg(str(lo[2]))} <= value <= {last_seg(str(hi[2]))}; Err otherwise'
                 else:
-                    detail = f'guard bounds {show(lo)}..{show(hi)} closed=({clo},{chi}) are not the inclusive range()'
+                    detail = f'guard bounds {show(lo)}..{show(hi)} closed=({clo},{chi}) are not the inclusive range of the type'
         else:
             detail = f'unexpected outcome shape: {show(ret)[:300]}'
     else:
@@ -255,10 +310,32 @@ def run(ctx, rep):
                f'returns {show(lv[0].ret)[:200] if lv else "nothing"}', where=lib.bodies[c[0]].span)
         n_pan += sum(1 for e in eng.log if e['kind'] == 'panic')
         n_routes += 1
-    # FromStr -> Parsable::parse -> str::parse::<f64> then TryFrom
+    # FromStr: whatever the route (a shared default method, a generic helper, inline code), a value is produced only as
+    # Self::try_from(s.parse::<f64>()?)?
+    def parse_route_ok(ret):
+        """(good, detail) for the outcome term of a text route"""
+        oks = [(c, v) for c, v in ite_leaves(ret) if v[0] == 'enum' and v[2] == 'Ok']
+        others = [(c, v) for c, v in ite_leaves(ret) if not (v[0] == 'enum' and v[2] in ('Ok', 'Err'))]
+        if not oks or others:
+            return False, f'unexpected outcome shape: {show(ret)[:200]}'
+        for c, v in oks:
+            pay = v[4][0]
+            q = pay
+            okq = q[0] == 'field' and q[1][0] == 'as' and q[1][2] == 'Ok'
+            Q = q[1][1] if okq else None
+            okQ = okq and Q[0] == 'app' and (Q[1].endswith('TryFrom::try_from') or Q[1] in tf_of.values() or Q[1] == try_from_default) \
+                and len(Q[2]) == 1
+            x = Q[2][0] if okQ else None
+            okx = okQ and x[0] == 'field' and x[1][0] == 'as' and x[1][2] == 'Ok' and x[1][1][0] == 'app' and \
+                x[1][1][1].endswith('<impl str>::parse') and x[1][1][2] == (('param', 's'),)
+            if not okx:
+                return False, f'Ok payload {show(pay)[:200]} is not try_from(parse(s)?)?'
+        return True, 'Ok(t) only for t = Self::try_from(s.parse::<f64>()?)?; every other outcome is Err'
+
     parse_defaults = [p for p, b in lib.bodies.items() if b.impl_of and 'trait_default' in b.impl_of and
                       any((callee_name(t) or '').endswith('<impl str>::parse') for _, t in b.calls())]
     fromstr_types = []
+    n_text = 0
     for ty in types:
         c = impl_fn(ty, 'str::FromStr', 'from_str')
         if not c:
@@ -267,43 +344,33 @@ def run(ctx, rep):
         eng = ctx.engine()
         for pd in parse_defaults:
             eng.opaque.add(pd)
+        for q_ in tf_of.values():
+            eng.opaque.add(q_)
+        eng.opaque.add(try_from_default)
         tree = eng.call_entry(c[0], eng.sym_args(c[0], ['s']))
         lv = list(E.leaves_of(tree))
-        good = len(lv) == 1 and lv[0].ret[0] == 'app' and lv[0].ret[1] in parse_defaults and \
-            lv[0].ret[2] == (('param', 's'),)
-        rep.ob('R18.3', f'{last_seg(ty)}:FromStr', good, 'delegates to the shared parse-then-validate default method'
-               if good else f'returns {show(lv[0].ret)[:200] if lv else "nothing"}', where=lib.bodies[c[0]].span)
+        if len(lv) == 1 and lv[0].ret[0] == 'app' and lv[0].ret[1] in parse_defaults and lv[0].ret[2] == (('param', 's'),):
+            good, detail = True, 'delegates to the shared parse-then-validate default method'
+        elif len(lv) == 1:
+            good, detail = parse_route_ok(lv[0].ret)
+            n_text += 1 if good else 0
+        else:
+            good, detail = False, f'{len(lv)} outcomes'
+        rep.ob('R18.3', f'{last_seg(ty)}:FromStr', good, detail, where=lib.bodies[c[0]].span)
+        n_pan += sum(1 for e in eng.log if e['kind'] == 'panic')
         n_routes += 1
     rep.floor('FromStr routes', len(fromstr_types), 4)
     for pd in parse_defaults:
         eng = ctx.engine()
+        for q_ in tf_of.values():
+            eng.opaque.add(q_)
         tree = eng.call_entry(pd, eng.sym_args(pd, ['s']))
         lv = list(E.leaves_of(tree))
-        good = False
-        detail = 'unexpected shape'
-        if len(lv) == 1:
-            P = None
-            oks = [(c, v) for c, v in ite_leaves(lv[0].ret) if v[0] == 'enum' and v[2] == 'Ok']
-            others = [(c, v) for c, v in ite_leaves(lv[0].ret) if not (v[0] == 'enum' and v[2] in ('Ok', 'Err'))]
-            good = len(oks) >= 1 and not others
-            for c, v in oks:
-                pay = v[4][0]
-                # Ok payload must be the Ok payload of TryFrom::try_from(Ok payload of str::parse(s))
-                q = pay
-                okq = q[0] == 'field' and q[1][0] == 'as' and q[1][2] == 'Ok'
-                Q = q[1][1] if okq else None
-                okQ = okq and Q[0] == 'app' and Q[1].endswith('TryFrom::try_from') and len(Q[2]) == 1
-                x = Q[2][0] if okQ else None
-                okx = okQ and x[0] == 'field' and x[1][0] == 'as' and x[1][2] == 'Ok' and x[1][1][0] == 'app' and \
-                    x[1][1][1].endswith('<impl str>::parse') and x[1][1][2] == (('param', 's'),)
-                if not okx:
-                    good = False
-                    detail = f'Ok payload {show(pay)[:200]} is not try_from(parse(s)?)?'
-            if good:
-                detail = 'Ok(t) only for t = Self::try_from(s.parse::<f64>()?)?; every other outcome is Err'
+        good, detail = parse_route_ok(lv[0].ret) if len(lv) == 1 else (False, f'{len(lv)} outcomes')
         rep.ob('R18.3', f'parse-default:{last_seg(pd)}', good, detail, where=lib.bodies[pd].span)
         n_pan += sum(1 for e in eng.log if e['kind'] == 'panic')
-    rep.floor('parse default methods', len(parse_defaults), 1)
+        n_text += 1 if good else 0
+    rep.floor('verified text routes (shared method or per type)', n_text, 1)
     # Deserialize
     for ty in types:
         c = [p for p, b in lib.bodies.items() if (b.impl_of or {}).get('self_ty') == ty and
